@@ -82,7 +82,7 @@ func TestC17(t *testing.T) {
 	}
 	expired := func() bool { return run.Expired() || time.Since(t0) > limit }
 
-	acc := enum.NewAcc(run, "every sealing configuration in the bound (blocks listed under 'alphabet': recipient keys x grant lists x per-grant share count x key index list {every subset of the recipients, plus the duplicate list 0,0} x threshold 0-3 x total-share override {0,1,2,3,5}) is passed to the real BuildEnvelope; every accepted one is unsealed with the private keys of all recipients; a combinatorial model says whether any key set can reach threshold+1 shares; a case is one configuration, all distinct by construction and all non-trivial (there is no fixture case); payload and context come from a fixed menu selected by a hash of the configuration")
+	acc := enum.NewAcc(run, "every sealing configuration in the bound (blocks listed under 'alphabet': recipient keys x grant lists x per-grant share count x key index list {every subset of the recipients, plus the duplicate list 0,0} x threshold 0-3 x total-share override {0,1,2,3,5} x recipient lists with distinct keys and with a key named more than once ([A,A], [A,B,A], [A,A,A])) is passed to the real BuildEnvelope; every accepted one is unsealed with the private keys of all recipients; a combinatorial model says whether any key set can reach threshold+1 shares; a case is one configuration, all distinct by construction and all non-trivial (there is no fixture case); payload and context come from a fixed menu selected by a hash of the configuration")
 
 	keys := enum.Keys(3)
 	spaces := ref.EnvSpaces(run.Quick())
@@ -106,8 +106,33 @@ func TestC17(t *testing.T) {
 		mu.Unlock()
 	}
 
-	one := func(c ref.EnvConfig) {
+	// aliases: which fixture key each recipient position holds. Besides the
+	// identity, recipient lists that name the same key more than once
+	// (the last position repeats the first; all positions hold the same key).
+	aliases := func(n int) [][]int {
+		switch n {
+		case 2:
+			return [][]int{{0, 1}, {0, 0}}
+		case 3:
+			return [][]int{{0, 1, 2}, {0, 1, 0}, {0, 0, 0}}
+		}
+		id := make([]int, n)
+		for i := range id {
+			id[i] = i
+		}
+		return [][]int{id}
+	}
+	one := func(c ref.EnvConfig, alias []int) {
 		ck := c.Key()
+		repeated := false
+		for i, a := range alias {
+			if a != i {
+				repeated = true
+			}
+		}
+		if repeated {
+			ck += fmt.Sprintf("/recipient-keys=%v", alias)
+		}
 		h := fnv.New32a()
 		h.Write([]byte(ck))
 		hv := h.Sum32()
@@ -116,7 +141,7 @@ func TestC17(t *testing.T) {
 		pubs := make([]crypto.PubKey, c.NKeys)
 		privs := make([]crypto.PrivKey, c.NKeys)
 		for i := range pubs {
-			pubs[i], privs[i] = keys[i].Pub, keys[i].Priv
+			pubs[i], privs[i] = keys[alias[i]].Pub, keys[alias[i]].Priv
 		}
 		var env *envelope.Envelope
 		var berr error
@@ -179,8 +204,10 @@ func TestC17(t *testing.T) {
 				}
 				c := layouts[i]
 				c.Threshold, c.Total = th, tot
-				one(c)
-				done.Add(1)
+				for _, al := range aliases(c.NKeys) {
+					one(c, al)
+					done.Add(1)
+				}
 			}
 		}
 	})
@@ -209,13 +236,17 @@ func TestC17(t *testing.T) {
 	if len(mins) > 0 {
 		run.Cov["smallest_counterexamples"] = mins
 	}
-	run.Cov["configurations_planned"] = len(layouts) * len(thresholds) * len(totals)
+	planned := 0
+	for _, l := range layouts {
+		planned += len(aliases(l.NKeys)) * len(thresholds) * len(totals)
+	}
+	run.Cov["configurations_planned"] = planned
 	run.Cov["configurations_done"] = done.Load()
 	var blocks []string
 	for _, sp := range spaces {
 		blocks = append(blocks, sp.String())
 	}
-	run.Cov["alphabet"] = map[string]any{"blocks": blocks, "threshold": thresholds, "total_shares": totals, "key_index_lists": "every subset of the recipients (ascending) and the list 0,0"}
+	run.Cov["alphabet"] = map[string]any{"blocks": blocks, "threshold": thresholds, "total_shares": totals, "key_index_lists": "every subset of the recipients (ascending) and the list 0,0", "recipient_keys": "distinct; [A,A]; [A,B,A]; [A,A,A]"}
 	run.Assumptions = append(run.Assumptions,
 		"the share-distribution model in harness/ref/envelope_model.go (sequential hand-out, distinct share ids, grant reachable iff a listed key is offered) is what doc/ENVELOPE.md and envelope.proto describe",
 		"only the stated direction is checked: accepted => openable by all recipients; a rejected but openable configuration is not a violation of the property as written",
